@@ -147,9 +147,29 @@ func wrongSigners(w *world, p payload) (out []cs.Signer, roles []string) {
 			}
 		}
 	}
+	// a stranger whose address shares its first byte with a rightful address (catches prefix-only address comparisons)
+	for _, g := range p.rightful {
+		want := g[0].Address()[0]
+		for j := 100; j < 3000; j++ {
+			if cs.Addr(keys.Ed(j))[0] == want {
+				add("stranger-with-colliding-address-prefix", []cs.Signer{{Kind: cs.KindEd, Key: j}})
+				break
+			}
+		}
+	}
 	add("stranger", []cs.Signer{attacker, {Kind: cs.KindBLS, Key: 66}, {Kind: cs.KindSecp, Key: 66}, {Kind: cs.KindEth, Key: 66}, {Kind: cs.KindRLP, Key: 66}, {Kind: cs.KindRLPV2, Key: 66}})
 	add("funded-stranger", []cs.Signer{{Kind: cs.KindEd, Key: 12}, {Kind: cs.KindBLS, Key: 12}, {Kind: cs.KindRLPV2, Key: 13}})
 	add("funded-stranger-multisig", multiForms(w.cast.Multis[2]))
+	// the operator of a non-custodial validator is entitled to edit the stake but NOT to redirect the output address
+	if m, ok := p.msg.(*fsm.MessageEditStake); ok {
+		for _, v := range w.vals {
+			if bytes.Equal(v.addr, m.Address) && len(v.output) > 0 {
+				for i := 0; i < 8; i++ {
+					add("own-operator-redirecting-the-output", v.operator[:1])
+				}
+			}
+		}
+	}
 	for _, v := range w.vals {
 		add("another-validators-operator", v.operator)
 		add("another-validators-output", v.output)
